@@ -261,6 +261,9 @@ func (g *gen) src(lo int) int {
 	case 6:
 		return 2
 	}
+	if lo == 200 && g.rng.Chance(1, 3) {
+		return 103 // static_response: Early Hints, writes and passes on
+	}
 	return []int{lo, 404, 500, 503}[g.rng.Intn(4)]
 }
 
